@@ -34,13 +34,14 @@ def commuted_forms(expr):
     return sorted(set(out) - {expr})
 
 
-def rewrite_one_expr(nodes, new_expr):
+def rewrite_one_expr(nodes, old_expr, new_expr):
+    """replace the expression `old_expr` (wherever it occurs) by one of its own commuted spellings"""
     nodes = copy.deepcopy(nodes)
     for n in nodes:
         ps = (n.get("derive") or {}).get("parameter_sweep")
         if ps:
             for k, e in list(ps["parameters"].items()):
-                if e in EXPR_REWRITES:
+                if e == old_expr:
                     ps["parameters"][k] = new_expr
     return nodes
 
@@ -71,7 +72,7 @@ for name, nodes, ctx in idlib.base_configs():
         for e_ in (ps_ or {}).get("parameters", {}).values() if ps_ else ():
             if e_ in EXPR_REWRITES:
                 for j_, form in enumerate(commuted_forms(e_)):
-                    variants.append((f"commuted{j_}:{form}", idlib.to_yaml(rewrite_one_expr(nodes, form), "block")))
+                    variants.append((f"commuted{j_}:{form}", idlib.to_yaml(rewrite_one_expr(nodes, e_, form), "block")))
     for vname, text in variants:
         evaluations += 1
         distinct.add((name, vname))
